@@ -601,4 +601,4 @@ CHECKS = {
 }
 
 NOT_CLAIMED = {}
-HOOK_COMMITS = []
+HOOK_COMMITS = ['11529ff']
